@@ -27,6 +27,10 @@ type GCase struct {
 // a third of the cases are parsed as a later file of a set, the library must not care)
 func (c GCase) Before() []int {
 	h := run.Hash(c.G.String() + "|" + c.In)
+	if h%29 == 1 {
+		// one case in 29 lies beyond a large file: global positions around and beyond 2^16, 2^20, 2^24, 2^31, 2^32, 2^40
+		return []int{int(h>>16) % 7, gram.BigOffsets[int(h>>8)%len(gram.BigOffsets)]}[int(h>>24)%2:]
+	}
 	if h%3 != 0 {
 		return nil
 	}
